@@ -125,7 +125,8 @@ let eval (line : string) : string =
   let next () = let t = toks.(!pos) in incr pos; t in
   let op = next () in
   match op with
-  | "MT" | "MP" | "MPR" | "MPX" ->
+  | "MT" | "MP" | "MPR" | "MPX" | "MV" | "MVR" | "MVX" ->
+      (* MV: impl Marshal for params::Variant = the dynamic marshaller's entry on the variant (marshal_param_top) *)
       let typed = (op = "MT") in
       let _ty = if typed then next () else "" in
       let be = be_of (next ()) in
